@@ -16,7 +16,7 @@ func init() {
 		watch := func(l string) bool {
 			switch l {
 			case "d.DependencyTokens[dep.Dataset]", "d.DependencyTokens[depName]", "d.DependencyTokens[d.activeDS]", "startPoints", "d.activeDS", "d.MainToken", "prevDataset",
-				"multiSource.changesCache[depDataset.ID]", "multiSource.waterMarks[dep.Dataset]", "prevRelatedFrom.At", "since", "multiSource.isFullSync":
+				"multiSource.changesCache[depDataset.ID]", "multiSource.waterMarks[dep.Dataset]", "prevRelatedFrom.At", "since", "multiSource.isFullSync", "lastOfDataset":
 				return true
 			}
 			return false
@@ -25,6 +25,29 @@ func init() {
 			fd := mustFunc("internal/jobs/source/multi_source.go", "MultiSource", fn)
 			o.p("def skeleton_%s : List String := %s\n", fn, leanList(skeleton(fd.Body, calls, watch)))
 		}
+		// which dependency may move its dataset's token: the call's arguments and the loop that computes the flag
+		rd := mustFunc("internal/jobs/source/multi_source.go", "MultiSource", "ReadEntities")
+		var lastOf []string
+		ast.Inspect(rd.Body, func(n ast.Node) bool {
+			switch x := n.(type) {
+			case *ast.RangeStmt:
+				lastOf = append(lastOf, "range "+oneLine(str(x.X)))
+			case *ast.IfStmt:
+				if strings.Contains(str(x.Cond), "Dataset") {
+					lastOf = append(lastOf, "if "+oneLine(str(x.Cond)))
+				}
+			case *ast.CallExpr:
+				if strings.HasSuffix(oneLine(str(x.Fun)), "processDependency") {
+					a := []string{}
+					for _, e := range x.Args {
+						a = append(a, oneLine(str(e)))
+					}
+					lastOf = append(lastOf, "call("+strings.Join(a, ", ")+")")
+				}
+			}
+			return true
+		})
+		o.p("def lastOfDataset : List String := %s\n", leanList(lastOf))
 		// the arguments of the reads (limits, latest-only flags, scopes)
 		var args []string
 		for _, fn := range []string{"processDependency", "findChanges", "incrementalRead"} {
